@@ -267,3 +267,38 @@ contract(MT + '_pass_type_resolution', params={'self': 'MainTransformer', 'node'
          note='loop3.post0-2: the parent type is an entry of the reported chain whose target is known to the scanner (the first one '
               'that resolves), a class with no known entry keeps its parent (none is invented), an interface falls back to '
               'GObject.Object; "nearest" is by the order of the loop, entries that fail to resolve (ValueError) are skipped')
+
+
+# ---- enumerations and flags registered with the type system ---------------------------------------------------------------------------
+from . import c13_constants   # noqa  (strip_identifier, invariants of the Enum / Bitfield constructors)
+contract(GD + '_split_type_and_symbol_prefix', params={'self': 'GDumpParser', 'xmlnode': 'Element'}, returns='tuple[str,str]', trusted=True,
+         raises={'AssertionError': 'maybe', 'SystemExit': 'maybe', 'KeyError': 'maybe', 'ValueError': 'maybe'},
+         modifies=['LOGGER._warning_count'], note='get-type symbol and the symbol prefix inferred from it')
+MS = "xmlnode.findall('member')"
+contract(GD + '_introspect_enum', params={'self': 'GDumpParser', 'xmlnode': 'Element'}, ghost={'J': 'int'}, props=('C12',),
+         requires=['not self._transformer._symbol_filter_cmd'],
+         modifies=['*.namespace', 'self._namespace.names{}', 'self._namespace.aliases{}', 'self._namespace.type_names{}',
+                   'self._namespace.symbols{}', 'self._namespace.ctypes{}', '*.parent', 'LOGGER._warning_count'],
+         raises={'KeyError': 'True', 'ValueError': 'True', 'AssertionError': 'True', 'SystemExit': 'True', 'TransformerException': 'True'},
+         var_types={'previous_values': 'dict[int|str]', 'previous_symbols': 'dict[str]'},
+         loops={1: {'index': 'I1', 'modifies': ['previous_values{}', 'previous_symbols{}'],
+                    'var_types': {'member': 'Member', 'previous_values': 'dict[int|str]', 'previous_symbols': 'dict[str]'},
+                    'invariant': ['is_fresh(previous_values)', 'is_fresh(previous_symbols)']},
+                2: {'index': 'I2', 'modifies': ['members[]'], 'var_types': {'member': 'Element', 'members': 'list[Member]'},
+                    'invariant': ['is_fresh(members)', 'len(members) == I2',
+                                  "implies(0 <= J and J < I2, members[J].nick == %s[J].attrib['nick'] and "
+                                  "members[J].dump_name == %s[J].attrib['name'] and "
+                                  "members[J].name == %s[J].attrib['nick'].replace('-', '_'))" % (MS, MS, MS)],
+                    'post': ['len(members) == len(%s)' % MS,
+                             "implies(0 <= J and J < len(members), members[J].nick == %s[J].attrib['nick'] and "
+                             "members[J].dump_name == %s[J].attrib['name'])" % (MS, MS)]}},
+         ensures={
+             'C12.enum.kind_is_the_one_the_type_system_reports':
+                 "all_calls('append', 'isinstance(arg_node, ast.Bitfield) == (xmlnode.tag == \\'flags\\') and "
+                 "isinstance(arg_node, (ast.Enum, ast.Bitfield)) and arg_replace == True')",
+             'C12.enum.registered_names': "all_calls('append', 'arg_node.gtype_name == local_type_name and arg_node.ctype == local_type_name')",
+             'C12.enum.members_are_the_reported_ones': "all_calls('append', 'arg_node.members is local_members')",
+         },
+         note='whether the type is an enumeration or a bitfield is decided by the runtime registration (<enum> / <flags>) alone, '
+              'not by what the scanner guessed from the C declaration; loop2.post0-1: one member per reported value, in order, with its nick and registered name; values and C identifiers of members are taken from the '
+              'scanned declaration when a member of that name exists (not claimed here)')
